@@ -264,6 +264,8 @@ pub enum End {
     Forward(u8),
     /// no terminator at all
     Open,
+    /// pointer to a few bytes before itself (into the fixed fields of the previous entry)
+    Back(u8),
 }
 
 #[derive(Debug, Clone, PartialEq, Eq, Hash, serde::Serialize, serde::Deserialize)]
@@ -311,6 +313,7 @@ pub fn render_graph(g: &Graph) -> Vec<u8> {
             End::Abs(a) => m.extend_from_slice(&ptr(*a as usize)),
             End::SelfPtr => m.extend_from_slice(&ptr(m.len())),
             End::Forward(d) => m.extend_from_slice(&ptr(m.len() + 2 + *d as usize)),
+            End::Back(d) => m.extend_from_slice(&ptr(m.len().saturating_sub(1 + (*d % 12) as usize))),
             End::Open => {}
         }
         if g.as_questions {
@@ -344,13 +347,14 @@ fn frag() -> BoxedStrategy<Frag> {
             1 => Just(End::SelfPtr),
             1 => any::<u8>().prop_map(End::Forward),
             1 => Just(End::Open),
+            3 => any::<u8>().prop_map(End::Back),
         ],
     )
         .prop_map(|(labels, end)| Frag { labels, end })
         .boxed()
 }
 
-fn graph_strategy(t: Tier) -> BoxedStrategy<Graph> {
+pub fn graph_strategy(t: Tier) -> BoxedStrategy<Graph> {
     let big = t.pick(2000u16, 11000);
     (
         vec(frag(), 1..40),
